@@ -580,6 +580,16 @@ func (vc *VC) exitObligations(fn *ssa.Function, fc *FuncContract, args, bind []V
 						panic(r)
 					}
 				}()
+				if g.Target.Kind == SIdent {
+					// ghost global
+					gv := vc.eng.contracts.GhostVars[g.Target.Name]
+					if gv == nil {
+						genv.fail("target is not a ghost variable")
+					}
+					res.st.heap["G$ghost."+g.Target.Name] = genv.scalar(genv.eval(g.Value))
+					vc.famSort["G$ghost."+g.Target.Name] = ghostSort(genv.resolveTypeIn(gv))
+					return
+				}
 				x := genv.eval(g.Target.X)
 				bt, isPtr := derefType(x.T)
 				gf := vc.eng.ghostField(bt, g.Target.Name)
